@@ -25,6 +25,41 @@ def strip_hooks(src):
         out.append(line)
     return '\n'.join(out)
 
+def strip_comments(src):
+    """remove // and (nested) /* */ comments; string and char literals are copied verbatim"""
+    out, i, n = [], 0, len(src)
+    while i < n:
+        c = src[i]
+        if src.startswith('//', i):
+            j = src.find('\n', i)
+            i = n if j < 0 else j
+        elif src.startswith('/*', i):
+            depth, i = 1, i + 2
+            while i < n and depth:
+                if src.startswith('/*', i):
+                    depth += 1; i += 2
+                elif src.startswith('*/', i):
+                    depth -= 1; i += 2
+                else:
+                    i += 1
+        elif c == '"':
+            j = i + 1
+            while j < n and src[j] != '"':
+                j += 2 if src[j] == '\\' else 1
+            out.append(src[i:j + 1]); i = j + 1
+        elif c == "'":
+            m = re.match(r"'(\\.|[^\\'])'", src[i:])
+            if m:
+                out.append(m.group(0)); i += len(m.group(0))
+            else:
+                out.append(c); i += 1
+        else:
+            out.append(c); i += 1
+    return ''.join(out)
+
+def read_rs(path):
+    return strip_comments(open(path, encoding='utf-8').read())
+
 def norm(s):
     return re.sub(r'\s+', '', s)
 
@@ -95,20 +130,94 @@ def kind_term(tokname):
 # ----------------------------------------------------------------------------- tokenizer
 SUP_CHARS = '⁰¹²³⁴⁵⁶⁷⁸⁹'
 
-def split_arms(body):
-    """top-level arms of `match current_char { ... }` by the rustfmt indentation (12 spaces)"""
-    lines = body.split('\n')
-    arms, cur = [], None
-    for ln in lines:
-        m = re.match(r'^ {12}(Some\((.+?)\)|None) => (.*)$', ln)
+def _skip_literal(src, i):
+    """if a string or char literal starts at i, return the index just after it, else i"""
+    if src[i] == '"':
+        j = i + 1
+        while j < len(src) and src[j] != '"':
+            j += 2 if src[j] == '\\' else 1
+        return j + 1
+    if src[i] == "'":
+        m = re.match(r"'(\\.|[^\\'])'", src[i:])
         if m:
-            if cur:
-                arms.append(cur)
-            cur = [m.group(2) if m.group(2) is not None else None, m.group(3)]
-        elif cur is not None:
-            cur[1] += '\n' + ln
-    if cur:
-        arms.append(cur)
+            return i + len(m.group(0))
+    return i
+
+def split_arms(body):
+    """top-level arms `Some(<pat>) => <body>` / `None => <body>` of `match current_char { ... }`, found by bracket
+    depth (independent of indentation); an arm body is a `{...}` block or runs to the next top-level comma.
+    Returns [pattern-inside-Some | None, body text] in source order; a top-level `_` arm is attached to the
+    arm before it, as the consumers expect."""
+    arms, i, n = [], 0, len(body)
+    def skip_ws(k):
+        while k < n and body[k].isspace():
+            k += 1
+        return k
+    while True:
+        i = skip_ws(i)
+        if i >= n:
+            break
+        # pattern up to the top-level '=>'
+        depth, j = 0, i
+        while j < n:
+            k = _skip_literal(body, j)
+            if k != j:
+                j = k; continue
+            c = body[j]
+            if c in '([{':
+                depth += 1
+            elif c in ')]}':
+                depth -= 1
+            elif depth == 0 and body.startswith('=>', j):
+                break
+            j += 1
+        if j >= n:
+            break
+        pat = body[i:j].strip()
+        j = skip_ws(j + 2)
+        # body
+        if j < n and body[j] == '{':
+            depth, k = 0, j
+            while k < n:
+                q = _skip_literal(body, k)
+                if q != k:
+                    k = q; continue
+                if body[k] in '([{':
+                    depth += 1
+                elif body[k] in ')]}':
+                    depth -= 1
+                    if depth == 0:
+                        k += 1
+                        break
+                k += 1
+            e = skip_ws(k)
+            if e < n and body[e] == ',':
+                e += 1
+            text, i = body[j:e], e
+        else:
+            depth, k = 0, j
+            while k < n:
+                q = _skip_literal(body, k)
+                if q != k:
+                    k = q; continue
+                if body[k] in '([{':
+                    depth += 1
+                elif body[k] in ')]}':
+                    depth -= 1
+                elif body[k] == ',' and depth == 0:
+                    k += 1
+                    break
+                k += 1
+            text, i = body[j:k], k
+        m = re.fullmatch(r'Some\((.+)\)', pat, flags=re.S)
+        if m:
+            arms.append([m.group(1).strip(), text])
+        elif pat == 'None':
+            arms.append([None, text])
+        elif arms:
+            arms[-1][1] += '\n' + pat + ' => ' + text        # `_ => None,` and anything unexpected stays visible to the arm check
+        else:
+            arms.append(['?' + pat, text])
     return arms
 
 DIGIT_TEMPLATES = {}   # normalised arm text -> (mode, imag_suffix)
@@ -208,7 +317,7 @@ def letter_arm(text, notes, where):
     return rows, default
 
 def translate_tokenizer(ev, repo, notes):
-    src = strip_hooks(non_test(open(os.path.join(repo, 'src', 'eval_' + ev, 'tokenizer.rs'), encoding='utf-8').read()))
+    src = strip_hooks(non_test(read_rs(os.path.join(repo, 'src', 'eval_' + ev, 'tokenizer.rs'))))
     nb = fn_body(src, 'next')
     if nb is None:
         notes.append('unrecognised tokenizer.rs: no next()')
@@ -285,13 +394,13 @@ def translate_tokenizer(ev, repo, notes):
     return table if ok else None
 
 def translate_sup_map(repo, notes):
-    src = open(os.path.join(repo, 'src', 'utils', 'superscript.rs'), encoding='utf-8').read()
+    src = read_rs(os.path.join(repo, 'src', 'utils', 'superscript.rs'))
     pairs = re.findall(r"'(.)' => Some\('(.)'\),", src)
     rest = re.sub(r"'(.)' => Some\('(.)'\),", '', src)
     if norm(rest) != norm("pub fn superscript_digit_to_digit(current_char: &char) -> Option<char> { match current_char { _ => None, } }"):
         notes.append('unrecognised utils/superscript.rs')
         return None
-    ds = open(os.path.join(repo, 'src', 'utils', 'deserialize_superscript_number.rs'), encoding='utf-8').read()
+    ds = read_rs(os.path.join(repo, 'src', 'utils', 'deserialize_superscript_number.rs'))
     h = hashlib.sha256(norm(ds).encode()).hexdigest()
     if h != DESER_HASH:
         notes.append('unrecognised utils/deserialize_superscript_number.rs (%s)' % h)
@@ -302,7 +411,7 @@ DESER_HASH = 'PLACEHOLDER_DESER'
 
 # ----------------------------------------------------------------------------- token.rs / categories
 def translate_categories(repo, notes):
-    src = open(os.path.join(repo, 'src', 'utils', 'operator_category.rs'), encoding='utf-8').read()
+    src = read_rs(os.path.join(repo, 'src', 'utils', 'operator_category.rs'))
     m = re.search(r'pub enum OperatorCategory \{', src)
     if not m or '#[derive(Debug, PartialEq, PartialOrd, Clone)]' not in src[:m.start()]:
         notes.append('unrecognised utils/operator_category.rs: derive/enum header')
@@ -333,7 +442,7 @@ def translate_categories(repo, notes):
     return cats
 
 def translate_prec(ev, repo, notes):
-    src = non_test(open(os.path.join(repo, 'src', 'eval_' + ev, 'token.rs'), encoding='utf-8').read())
+    src = non_test(read_rs(os.path.join(repo, 'src', 'eval_' + ev, 'token.rs')))
     b = fn_body(src, 'get_oper_prec')
     if b is None:
         notes.append('unrecognised eval_%s/token.rs' % ev)
@@ -431,25 +540,66 @@ CONST_SHAPES = {
                'sup': 'Ok(Node::Pow(Box::new(left_expr),Box::new(Node::Num(script))))'},
 }
 
-def split_match_arms(body, indent):
-    """arms `<indent>PATTERN => ...` of a match body, by indentation"""
-    arms, cur = [], None
-    pat = re.compile(r'^ {%d}(\S.*?) => (.*)$' % indent)
-    for ln in body.split('\n'):
-        m = pat.match(ln)
-        if m and not ln.startswith(' ' * (indent + 1)):
-            if cur:
-                arms.append(cur)
-            cur = [m.group(1), m.group(2)]
-        elif cur is not None:
-            cur[1] += '\n' + ln
-    if cur:
-        arms.append(cur)
+def split_match_arms(body, indent=None):
+    """arms `PATTERN => BODY` of a match body, found by bracket depth (the indent argument is ignored: formatting
+    does not matter)"""
+    arms, i, n = [], 0, len(body)
+    def skip_ws(k):
+        while k < n and body[k].isspace():
+            k += 1
+        return k
+    def scan(k, stop):
+        """advance from k at depth 0 until stop(k) holds at depth 0; returns that index (or n)"""
+        depth = 0
+        while k < n:
+            q = _skip_literal(body, k)
+            if q != k:
+                k = q; continue
+            c = body[k]
+            if depth == 0 and stop(k):
+                return k
+            if c in '([{':
+                depth += 1
+            elif c in ')]}':
+                depth -= 1
+            k += 1
+        return n
+    while True:
+        i = skip_ws(i)
+        if i >= n:
+            break
+        j = scan(i, lambda k: body.startswith('=>', k))
+        if j >= n:
+            break
+        pat = re.sub(r'\s+', ' ', body[i:j].strip())
+        j = skip_ws(j + 2)
+        if j < n and body[j] == '{':
+            depth, k = 0, j
+            while k < n:
+                q = _skip_literal(body, k)
+                if q != k:
+                    k = q; continue
+                if body[k] in '([{':
+                    depth += 1
+                elif body[k] in ')]}':
+                    depth -= 1
+                    if depth == 0:
+                        k += 1
+                        break
+                k += 1
+            e = skip_ws(k)
+            if e < n and body[e] == ',':
+                e += 1
+            arms.append([pat, body[j:e]]); i = e
+        else:
+            k = scan(j, lambda k: body[k] == ',')
+            k = min(n, k + 1)
+            arms.append([pat, body[j:k]]); i = k
     return arms
 
 def translate_parser(ev, repo, notes):
     path = os.path.join(repo, 'src', 'eval_' + ev, 'parser.rs')
-    src = strip_hooks(non_test(open(path, encoding='utf-8').read()))
+    src = strip_hooks(non_test(read_rs(path)))
     shapes = CONST_SHAPES[ev]
     ok = True
     changed = []
@@ -607,7 +757,7 @@ def translate_parser(ev, repo, notes):
 # ----------------------------------------------------------------------------- lib.rs / Cargo.toml / statics
 def translate_features(repo, notes):
     cargo = open(os.path.join(repo, 'Cargo.toml')).read()
-    lib = open(os.path.join(repo, 'src', 'lib.rs')).read()
+    lib = read_rs(os.path.join(repo, 'src', 'lib.rs'))
     feats = {}
     m = re.search(r'\[features\]\n(.*?)(\n\[|\Z)', cargo, re.S)
     for ln in m.group(1).split('\n'):
@@ -659,7 +809,7 @@ def scan_statics(repo):
             rel = os.path.relpath(p, repo)
             if rel == 'src/verif_hooks.rs':
                 continue      # compiled only with the verification feature
-            src = strip_hooks(non_test(open(p, encoding='utf-8').read()))
+            src = strip_hooks(non_test(read_rs(p)))
             # drop comments
             src = re.sub(r'//.*', '', src)
             for i, ln in enumerate(src.split('\n'), 1):
@@ -750,13 +900,13 @@ def main():
     if a.write_shape:
         eng = {}
         for ev in EVS:
-            src = strip_hooks(non_test(open(os.path.join(a.repo, 'src', 'eval_' + ev, 'parser.rs'), encoding='utf-8').read()))
+            src = strip_hooks(non_test(read_rs(os.path.join(a.repo, 'src', 'eval_' + ev, 'parser.rs'))))
             eng[ev] = {f: hashlib.sha256(norm(fn_body(src, f) or '').encode()).hexdigest() for f in ENGINE_FNS}
         mods = {}
         for ev in EVS:
-            ms = strip_hooks(open(os.path.join(a.repo, 'src', 'eval_' + ev, 'mod.rs'), encoding='utf-8').read())
+            ms = strip_hooks(read_rs(os.path.join(a.repo, 'src', 'eval_' + ev, 'mod.rs')))
             mods[ev] = hashlib.sha256(norm(fn_body(ms, 'eval_' + ev) or '').encode()).hexdigest()
-        ds = open(os.path.join(a.repo, 'src', 'utils', 'deserialize_superscript_number.rs'), encoding='utf-8').read()
+        ds = read_rs(os.path.join(a.repo, 'src', 'utils', 'deserialize_superscript_number.rs'))
         json.dump({'engine': eng, 'mods': mods, 'deser': hashlib.sha256(norm(ds).encode()).hexdigest()}, open(a.shape, 'w'), indent=1)
         print('wrote', a.shape)
         return
@@ -779,7 +929,7 @@ def main():
         lt = translate_tokenizer(ev, a.repo, notes) if sup is not None else None
         pr = translate_prec(ev, a.repo, notes)
         pt = translate_parser(ev, a.repo, notes)
-        ms = strip_hooks(open(os.path.join(a.repo, 'src', 'eval_' + ev, 'mod.rs'), encoding='utf-8').read())
+        ms = strip_hooks(read_rs(os.path.join(a.repo, 'src', 'eval_' + ev, 'mod.rs')))
         mod_ok = hashlib.sha256(norm(fn_body(ms, 'eval_' + ev) or '').encode()).hexdigest() == shape.get('mods', {}).get(ev)
         good = lt is not None and pr is not None and pt is not None and cats is not None
         report['evaluators'][ev] = {'regenerated': good, 'engine_changed': (pt or {}).get('engine_changed', None),
